@@ -257,7 +257,8 @@ def c13(res, tier, seed, lib):
     modelled_family(res, random.Random(seed + 77), ['paint'], 120 if tier != "thorough" else 1500)
     rnd = random.Random(seed)
     flags = [[], ["-f"], ["-m", "24bit"], ["-m", "8bit"], ["-m", "off"], ["-m", "auto"]]
-    pcms = [None, "24bit", "truecolor", "8bit", "off", "", "junk"]
+    # the four documented values exactly as written; every other spelling is an error
+    pcms = [None, "24bit", "truecolor", "8bit", "off", "", "junk", "TrueColor", "24BIT", "OFF", "8Bit", " 24bit", "off ", "auto"]
     nocolors = [None, "", "1"]
     cts = [None, "truecolor", "24bit", "xterm"]
     configs = [(f, tty, p, n, c) for f in flags for tty in (False, True) for p in pcms for n in nocolors for c in cts]
@@ -1125,6 +1126,14 @@ def c19(res, tier, seed, lib):
         res.case("argv[0]=p\\xff\\xfe " + " ".join(argv))
         res.check(p.returncode == ref[0] == 0 and p.stdout == ref[1], "program-name-is-not-an-argument", "cli:main", "argv[0]=b'p\\xff\\xfe' " + " ".join(argv),
                   "rc=%s stdout=%r stderr=%r (with an ordinary program name: rc=%s %r)" % (p.returncode, p.stdout[:60], strip_sgr(p.stderr)[:100], ref[0], ref[1][:60]))
+    # ---- gradient with any number of colour arguments ----
+    gpal = [rand_color_text(rnd) for _ in range(130)]
+    for k in range(2, 131):
+        argv = ["gradient", "-n", "3"] + gpal[:k]
+        rc, out, err = run_cli(argv)
+        res.case("gradient with %d colours" % k)
+        generic_oracle(res, ["gradient", "-n", "3", "<%d colours>" % k], rc, out, err)
+        res.check(rc == 0 and out.count(b"\n") == 3, "gradient-any-number-of-stops", "cli:gradient", "gradient -n 3 <%d colours>" % k, "rc=%s stderr=%r" % (rc, strip_sgr(err)[:160]))
     # ---- long lists through the commands that collect all colours before printing ----
     for ln in [21, 64, 300]:
         texts = [rand_color_text(rnd) for _ in range(ln)]
@@ -1733,6 +1742,17 @@ def c08(res, tier, seed, lib):
         ops.append("gradient %s %d %d %s" % (sp, n, k, " ".join(i.wire for i in inf)))
         meta.append((inp, out))
         refq.append(("grad %s %d %s" % (sp, n, " ".join(hexs(t) for t in texts)), inp, lines))
+    # any number of colour arguments (the stop positions i/(k-1) are computed for every k): N lines, c1 first, ck last
+    palette = [rand_color_text(rnd) for _ in range(160)]
+    pinf = infos(palette)
+    for k in (range(2, 131) if tier != "thorough" else range(2, 161)):
+        n = rnd.choice([2, 3, 5])
+        rc, out, err = run_cli(["gradient", "-n", str(n), "-s", rnd.choice(["rgb", "lab", "hsl"])] + palette[:k])
+        lines = out.decode().split("\n")[:-1]
+        inp = "gradient -n %d with %d colour arguments" % (n, k)
+        res.case(inp)
+        res.check(rc == 0 and len(lines) == n and lines[0] == pinf[0].hsl and lines[-1] == pinf[k - 1].hsl, "gradient-any-number-of-stops", "cli:gradient", inp,
+                  "rc=%s, %d lines, first %s last %s (expected %s .. %s), stderr=%r" % (rc, len(lines), lines[:1], lines[-1:], pinf[0].hsl, pinf[k - 1].hsl, strip_sgr(err)[:120]))
     # the gradient the property describes, built through the library's ColorScale
     # (stops at i/(k-1), samples at j/(N-1)); the command must print exactly these lines
     for (q, inp, lines), ref in zip(refq, harness_query([q for (q, _, _) in refq])):
@@ -2001,7 +2021,45 @@ def c14(res, tier, seed, lib):
         res.check(rc == want and out == b"", "distinct-validation", "cli:distinct", repr(argv), "rc=%s out=%r" % (rc, out[:60]))
 
 
-RUNNERS = {"C20": c20, "C15": c15, "C04": c04, "C01": c01, "C05": c05, "C07": c07, "C09": c09, "C10": c10, "C02": c02, "C06": c06, "C08": c08, "C13": c13, "C14": c14, "C16": c16, "C17": c17, "C18": c18, "C19": c19}
+def c12(res, tier, seed, lib):
+    """`pastel format ansi-8bit[-escapecode]` hands every colour to `to_ansi_8bit`: the printed code is in 16..=255
+    (also for the RGB values of the 16 system colours) and is the code the Lean model computes."""
+    rnd = random.Random(seed)
+    def xterm(code):
+        if code < 16:
+            return [(0, 0, 0), (128, 0, 0), (0, 128, 0), (128, 128, 0), (0, 0, 128), (128, 0, 128), (0, 128, 128), (192, 192, 192),
+                    (128, 128, 128), (255, 0, 0), (0, 255, 0), (255, 255, 0), (0, 0, 255), (255, 0, 255), (0, 255, 255), (255, 255, 255)][code]
+        if code < 232:
+            c = code - 16
+            lv = [0, 95, 135, 175, 215, 255]
+            return (lv[c // 36], lv[(c // 6) % 6], lv[c % 6])
+        g = 8 + 10 * (code - 232)
+        return (g, g, g)
+    texts = ["rgb(%d,%d,%d)" % xterm(c) for c in range(256)]
+    texts += ["rgb(%d,%d,%d)" % (min(255, r + d), g, b) for (r, g, b) in [xterm(c) for c in range(16)] for d in (1, 2)]
+    texts += [rand_color_text(rnd) for _ in range(200 if tier != "thorough" else 3000)]
+    inf = infos(texts)
+    want = model_batch(["ansi to " + i.wire for i in inf])
+    for kind in ["ansi-8bit", "ansi-8bit-escapecode"]:
+        got = []
+        for i in range(0, len(texts), 150):
+            rc, out, err = run_cli(["format", kind] + texts[i:i + 150])
+            res.check(rc == 0, "exit-0", "cli:format-" + kind, str(texts[i:i + 2]), "rc=%s %r" % (rc, err[-120:]))
+            if kind == "ansi-8bit":
+                got += re.findall(rb"\\x1b\[38;5;(\d+)m", out)
+            else:
+                got += re.findall(rb"\x1b\[38;5;(\d+)m", out)
+        res.check(len(got) == len(texts), "one-code-per-colour", "cli:format-" + kind, kind, "%d codes for %d colours" % (len(got), len(texts)))
+        for t, g, w in zip(texts, got, want):
+            code = int(g)
+            res.case("format %s %s" % (kind, t), True)
+            res.check(16 <= code <= 255, "never-a-system-colour", "cli:format-" + kind, t, "code %d" % code)
+            res.model_op()
+            if w != "ok %d" % code:
+                res.disagree("format %s %s" % (kind, t), "code %d" % code, w)
+
+
+RUNNERS = {"C12": c12, "C20": c20, "C15": c15, "C04": c04, "C01": c01, "C05": c05, "C07": c07, "C09": c09, "C10": c10, "C02": c02, "C06": c06, "C08": c08, "C13": c13, "C14": c14, "C16": c16, "C17": c17, "C18": c18, "C19": c19}
 
 
 def run(prop, tier, seed, lib):
